@@ -452,3 +452,52 @@ pub fn sink_handed_over(_a: &Value) -> Value {
                "violation":!why.is_empty(),"why":why.join(" | ")})
     })
 }
+
+/// `accept()` that fails - the subscribe call's future is gone by the time the handler accepts - must leave nothing behind: no subscription is active,
+/// so unsubscribing its id answers false and its slot is free again.
+pub fn accept_fails(_a: &Value) -> Value {
+    use jsonrpsee_types::SubscriptionId;
+    struct Ctx {
+        go: tokio::sync::Notify,
+        ids: Mutex<Vec<SubscriptionId<'static>>>,
+        accepted: Mutex<Vec<bool>>,
+    }
+    let rt = tokio::runtime::Builder::new_multi_thread().worker_threads(2).enable_all().build().unwrap();
+    rt.block_on(async move {
+        let ctx = Arc::new(Ctx { go: tokio::sync::Notify::new(), ids: Mutex::new(vec![]), accepted: Mutex::new(vec![]) });
+        let mut m = RpcModule::from_arc(ctx.clone());
+        m.register_subscription_raw("sub", "notif", "unsub", |_, pending, ctx, _| {
+            ctx.ids.lock().unwrap().push(pending.subscription_id());
+            tokio::spawn(async move {
+                ctx.go.notified().await;
+                let r = pending.accept().await;
+                ctx.accepted.lock().unwrap().push(r.is_ok());
+            });
+        })
+        .unwrap();
+        let m = Arc::new(m);
+        // the subscribe call is given up before the handler accepts
+        let m2 = m.clone();
+        let call = tokio::time::timeout(Duration::from_millis(150), async move { m2.raw_json_request(r#"{"jsonrpc":"2.0","id":1,"method":"sub","params":[]}"#, 8).await }).await;
+        let given_up = call.is_err();
+        ctx.go.notify_one();
+        tokio::time::sleep(Duration::from_millis(150)).await;
+        let id = ctx.ids.lock().unwrap().first().cloned();
+        let accepted = ctx.accepted.lock().unwrap().first().cloned();
+        let mut why = vec![];
+        let mut unsub = Value::Null;
+        if let Some(id) = &id {
+            let rq = json!({"jsonrpc":"2.0","id":2,"method":"unsub","params":[id]}).to_string();
+            if let Ok((rp, _)) = m.raw_json_request(&rq, 8).await {
+                unsub = serde_json::from_str::<Value>(rp.get()).unwrap_or(Value::Null)["result"].clone();
+            }
+        }
+        if !given_up {
+            why.push("the subscribe call completed before the handler accepted (scenario not set up)".to_string());
+        }
+        if accepted == Some(false) && unsub != json!(false) {
+            why.push(format!("accept() failed, yet unsubscribing that id answers {unsub} - a subscription that never became active is in the table"));
+        }
+        json!({"scenario":"c06_accept_fails","observed":{"call_given_up":given_up,"accept_ok":accepted,"unsubscribe":unsub},"violation":!why.is_empty(),"why":why.join(" | ")})
+    })
+}
